@@ -566,10 +566,7 @@ class AbstractRowWriter(object):
             self._target_stream = io.open(self._target_path, "w", encoding=data_format.encoding, newline="")
             self._has_opened_target_stream = True
         else:
-            try:
-                self._target_path = target.name
-            except AttributeError:
-                self._target_path = "<io>"
+            self._target_path = errors.Location(target).file_path
             self._target_stream = target
         self._location = errors.Location(self.target_path, has_cell=True)
 
